@@ -148,9 +148,12 @@ def engine_markup(engine: str) -> typing.Any:
     return bms.Markup
 
 
+Flags = typing.Union[str, typing.Tuple[typing.Tuple[str, typing.Any], ...]]  # a name of FLAGS or explicit options
+
+
 def get_env(
     engine: str,
-    flags: str,
+    flags: Flags,
     le: str = "lf",
     extensions: typing.Sequence[typing.Any] = (),
     autoescape: bool = False,
@@ -161,7 +164,7 @@ def get_env(
         return env
     mod = engine_module(engine)
     loader = mod.DictLoader({k: with_le(v, le) for k, v in LOADER_LF.items()})
-    kw: typing.Dict[str, typing.Any] = dict(FLAGS[flags])
+    kw: typing.Dict[str, typing.Any] = dict(FLAGS[flags]) if isinstance(flags, str) else dict(flags)
     kw["autoescape"] = autoescape
     if extensions:
         kw["extensions"] = list(extensions)  # type: ignore
@@ -230,10 +233,61 @@ def render_env(env: typing.Any, src: str, ctxs: typing.Sequence[typing.Mapping[s
 
 def render(
     engine: str,
-    flags: str,
+    flags: Flags,
     le: str,
     src: str,
     ctxs: typing.Sequence[typing.Mapping[str, typing.Any]],
     autoescape: bool = False,
 ) -> typing.List[Outcome]:
     return render_env(get_env(engine, flags, le, (), autoescape), with_le(src, le), ctxs)
+
+
+# ------------------------------------------------------------------------------------------------ token streams
+ROOT_ALTERNATIVES = ("comment", "block", "variable", "raw", "linestatement", "linecomment")
+_DROPPED = {
+    "whitespace",
+    "comment_begin",
+    "comment",
+    "comment_end",
+    "linecomment_begin",
+    "linecomment",
+    "linecomment_end",
+    "raw_begin",
+    "raw_end",
+}
+_VALUED = {"name", "integer", "float", "string", "operator"}
+
+TokenResult = typing.Tuple[str, typing.Any]  # ("ok", tuple of (type, value|None)) | ("err", family)
+
+
+def lex_norm(engine: str, flags: Flags, le: str, src: str) -> typing.Tuple[TokenResult, typing.FrozenSet[str]]:
+    """The parser-visible token stream of `src` in a version-independent normal form, and the set of root-rule
+    alternatives the lexer took.  Taken from Environment.lex() (raw tokens).  Normal form: tokens the parser never sees
+    are dropped (whitespace, comments, line comments, raw delimiters), line statement delimiters become block
+    delimiters (as Lexer.wrap does), delimiter tokens keep their type only (2.x keeps stripped blanks inside the
+    delimiter token, 3.x removes them from the data token: same text reaches the output), adjacent data tokens are
+    merged with newlines normalised, empty data is dropped."""
+    env = get_env(engine, flags, le)
+    alts: typing.Set[str] = set()
+    out: typing.List[typing.Tuple[str, typing.Any]] = []
+    try:
+        for _lineno, tok, value in env.lex(with_le(src, le)):
+            if tok.endswith("_begin") and tok[:-6] in ROOT_ALTERNATIVES:
+                alts.add(tok[:-6])
+            if tok in _DROPPED:
+                continue
+            if tok == "data":
+                value = value.replace("\r\n", "\n").replace("\r", "\n")
+                if not value:
+                    continue
+                if out and out[-1][0] == "data":
+                    out[-1] = ("data", out[-1][1] + value)
+                else:
+                    out.append(("data", value))
+                continue
+            if tok.startswith("linestatement_"):
+                tok = "block_" + tok[len("linestatement_") :]
+            out.append((tok, value if tok in _VALUED else None))
+    except Exception as e:  # pylint: disable=broad-except
+        return ("err", family(e)), frozenset(alts)
+    return ("ok", tuple(out)), frozenset(alts)
